@@ -121,7 +121,9 @@ func runC15(o *hx.Out, r *hx.Rand, thorough bool) {
 							continue
 						}
 						used[n] = true
-						d.Methods = append(d.Methods, grpc.MethodDesc{MethodName: n})
+						d.Methods = append(d.Methods, grpc.MethodDesc{MethodName: n, Handler: func(interface{}, context.Context, func(interface{}) error, grpc.UnaryServerInterceptor) (interface{}, error) {
+							return &hx.Msg{}, nil
+						}})
 					}
 					for j := r.Intn(4); j > 0; j-- {
 						n := mnames[r.Intn(len(mnames))]
@@ -248,6 +250,35 @@ func runC15(o *hx.Out, r *hx.Rand, thorough bool) {
 							outTerms = append(outTerms, "ODone")
 						}
 					case "query":
+						if ipc, isChan := c.reg.(*inprocgrpc.Channel); isChan && c.query == nil {
+							// the channel has no query operation: look the name up the way it does, by calling.  Exactly the
+							// unary methods of the service registered under that name so far answer -- also when the same
+							// names were called (and missed) before the registration
+							var answers []string
+							for _, m := range mnames {
+								if ipc.Invoke(context.Background(), "/"+op.name+"/"+m, &hx.Msg{}, &hx.Msg{}) == nil {
+									answers = append(answers, m)
+								}
+							}
+							var want []string
+							for i, d := range okDescs {
+								_ = i
+								if d.ServiceName == op.name {
+									for _, m := range mnames {
+										for _, md := range d.Methods {
+											if md.MethodName == m {
+												want = append(want, m)
+											}
+										}
+									}
+								}
+							}
+							if fmt.Sprint(answers) != fmt.Sprint(want) {
+								o.Violate("calls through the in-process channel did not reach exactly the methods of the service registered under the name",
+									map[string]interface{}{"carrier": c.name, "service": op.name, "ops_so_far": opDesc, "methods_that_answered": answers, "registered_unary_methods": want}, answers, want)
+							}
+							return
+						}
 						if c.query == nil {
 							return
 						}
